@@ -5,6 +5,7 @@ import (
 	"fmt"
 	"io"
 	"math/rand"
+	"sort"
 	"strings"
 	"sync"
 	"testing"
@@ -59,6 +60,8 @@ func (l c37Label) coq() string {
 		return vApp("LUnsub", vN(uint64(l.Name)))
 	case "mapnext":
 		return vApp("LMapNext", vN(uint64(l.Name)))
+	case "unsubrace":
+		return vApp("LUnsubRace", vN(uint64(l.Tok)), vBool(l.OK))
 	}
 	return vApp("LEnqueue", vN(uint64(l.Size)))
 }
@@ -122,6 +125,7 @@ type c37H struct {
 	scripts map[string]string
 	pending map[int]func(ok bool)
 	mapPending map[int]int // token -> model name of a held map subscribe
+	pendChan map[int]string // token -> channel of a held stream / shared-poll subscribe
 	qOffset int // queued bytes not yet attributed to a label (timer mode: connect reply, subscribe push)
 	cmdChan map[uint32]string // command id -> channel (to attribute subscribe results)
 	pages   map[string]*protocol.SubscribeResult // last state page of a paginating map subscription
@@ -272,8 +276,13 @@ func (h *c37H) settle(wasClosed *bool) []c37Ev {
 	return evs
 }
 
-func c37Run(t *testing.T, limit, maxlen, maxq int, kind string, r *rand.Rand, fixed []c37Label, steps int) (labels []c37Label, obs [][]c37Ev, snaps []c37Snap) {
-	h := &c37H{t: t, marker: make(chan struct{}, 1), names: map[string]int{}, scripts: map[string]string{}, pending: map[int]func(bool){}, mapPending: map[int]int{}, cmdChan: map[uint32]string{}, pages: map[string]*protocol.SubscribeResult{},
+func c37Run(t *testing.T, limit, maxlen, maxq int, kind string, r *rand.Rand, fixed []c37Label, steps int) (labels []c37Label, obs [][]c37Ev, snaps []c37Snap, conn []c37Ev, snap0 c37Snap) {
+	nsubs := 0
+	if i := strings.Index(kind, "+"); i >= 0 {
+		fmt.Sscanf(kind[i+1:], "%d", &nsubs)
+		kind = kind[:i]
+	}
+	h := &c37H{t: t, marker: make(chan struct{}, 1), names: map[string]int{}, scripts: map[string]string{}, pending: map[int]func(bool){}, mapPending: map[int]int{}, pendChan: map[int]string{}, cmdChan: map[uint32]string{}, pages: map[string]*protocol.SubscribeResult{},
 		gate: make(chan struct{}), entered: make(chan struct{}, 1)}
 	cfgv := func(n int) int {
 		if n == 0 {
@@ -315,6 +324,12 @@ func c37Run(t *testing.T, limit, maxlen, maxq int, kind string, r *rand.Rand, fi
 	node.OnSharedPoll(func(context.Context, SharedPollEvent) (SharedPollResult, error) { return SharedPollResult{}, nil })
 	node.OnConnecting(func(context.Context, ConnectEvent) (ConnectReply, error) {
 		rep := ConnectReply{Credentials: &Credentials{UserID: "u"}}
+		if nsubs > 0 { // server-side subscriptions at connect: model names 50, 51, ...
+			rep.Subscriptions = map[string]SubscribeOptions{}
+			for k := 0; k < nsubs; k++ {
+				rep.Subscriptions[c37Channel(50+k, 3, false)] = SubscribeOptions{}
+			}
+		}
 		if strings.Contains(kind, "delay") || strings.Contains(kind, "timer") {
 			rep.WriteDelay = 3 * time.Millisecond
 			if strings.Contains(kind, "timer") {
@@ -348,6 +363,8 @@ func c37Run(t *testing.T, limit, maxlen, maxq int, kind string, r *rand.Rand, fi
 				h.pending[h.nextTok] = answer
 				if e.Type == SubscriptionTypeMap {
 					h.mapPending[h.nextTok] = h.names[e.Channel]
+				} else {
+					h.pendChan[h.nextTok] = e.Channel
 				}
 				h.nextTok++
 			case "err":
@@ -379,10 +396,19 @@ func c37Run(t *testing.T, limit, maxlen, maxq int, kind string, r *rand.Rand, fi
 		}
 		_ = closeFn()
 	}()
-	if !client.HandleCommand(&protocol.Command{Id: 1, Connect: &protocol.ConnectRequest{}}, 0) {
-		t.Fatalf("connect failed")
-	}
 	wasClosed := false
+	if !client.HandleCommand(&protocol.Command{Id: 1, Connect: &protocol.ConnectRequest{}}, 0) {
+		// refused at connect (more server-side subscriptions than the limit)
+		select {
+		case <-h.tr.closeCh:
+		case <-time.After(5 * time.Second):
+			t.Fatalf("connect failed without closing")
+		}
+		conn = h.settle(&wasClosed)
+		snap0 = h.snapshot()
+		steps = 0
+		fixed = nil
+	}
 	timerMode := strings.Contains(kind, "timer")
 	if timerMode {
 		h.mu.Lock()
@@ -390,7 +416,13 @@ func c37Run(t *testing.T, limit, maxlen, maxq int, kind string, r *rand.Rand, fi
 		h.mu.Unlock()
 		h.qOffset = client.messageWriter.messages.Size() // the connect reply
 	}
-	h.settle(&wasClosed)
+	if !wasClosed {
+		conn = h.settle(&wasClosed)
+		snap0 = h.snapshot()
+		if timerMode {
+			snap0.Q = 0 // the queued connect reply is attributed by the first label
+		}
+	}
 	plug := func() {
 		// plug the writer: it takes the first message out of the queue and blocks in the transport
 		h.mu.Lock()
@@ -453,7 +485,14 @@ func c37Run(t *testing.T, limit, maxlen, maxq int, kind string, r *rand.Rand, fi
 			for tk := range h.pending {
 				toks = append(toks, tk)
 			}
+			var raceToks []int
+			for tk := range h.pendChan {
+				raceToks = append(raceToks, tk)
+			}
+			sort.Ints(raceToks)
 			switch {
+			case len(raceToks) > 0 && x < 6 && !h.isClosed():
+				l = c37Label{Kind: "unsubrace", Tok: raceToks[r.Intn(len(raceToks))], OK: r.Intn(3) != 0}
 			case len(toks) > 0 && x < 25:
 				min := toks[0]
 				for _, tk := range toks {
@@ -560,9 +599,34 @@ func c37Run(t *testing.T, limit, maxlen, maxq int, kind string, r *rand.Rand, fi
 			h.cmdChan[cmdID] = ch
 			h.mu.Unlock()
 			command(&protocol.Command{Id: cmdID, Subscribe: req})
+		case "unsubrace":
+			// the unsubscribe command blocks on the subscribing gate until the application answers
+			cb, ok := h.pending[l.Tok]
+			ch := h.pendChan[l.Tok]
+			if !ok || ch == "" {
+				t.Fatalf("unsubrace: token %d is not a held stream subscribe", l.Tok)
+			}
+			delete(h.pending, l.Tok)
+			delete(h.pendChan, l.Tok)
+			cmdID++
+			done := make(chan bool, 1)
+			unsubCmd := &protocol.Command{Id: cmdID, Unsubscribe: &protocol.UnsubscribeRequest{Channel: ch}}
+			go func() { done <- client.HandleCommand(unsubCmd, 0) }()
+			select {
+			case <-done:
+				t.Errorf("unsubscribe did not wait for the subscribe in flight")
+			case <-time.After(3 * time.Millisecond):
+			}
+			cb(l.OK)
+			select {
+			case <-done:
+			case <-time.After(5 * time.Second):
+				t.Fatalf("unsubscribe still blocked after the subscribe callback was answered")
+			}
 		case "complete":
 			if cb, ok := h.pending[l.Tok]; ok {
 				delete(h.pending, l.Tok)
+				delete(h.pendChan, l.Tok)
 				delete(h.mapPending, l.Tok)
 				cb(l.OK)
 			}
@@ -718,6 +782,10 @@ func TestVerifC37(t *testing.T) {
 		{2, 8, 0, "subs", []c37Label{sub(1, 3, false, "ok"), {Kind: "sub", Name: 30, Len: 3, Map: true, Paged: true, Script: "ok"}, sub(2, 3, false, "ok"),
 			{Kind: "mapnext", Name: 30}, sub(3, 3, false, "ok")}}, // a stream subscribe while a map subscription is between two pages: its slot counts
 		{2, 8, 0, "subs", []c37Label{sub(1, 3, false, "ok"), {Kind: "sub", Name: 30, Len: 3, Map: true, Paged: true, Script: "ok"}, {Kind: "srvsub", Name: 10}, {Kind: "mapnext", Name: 30}}},
+		{2, 8, 0, "subs+3", nil},                                                                                 // connect with 3 server-side subscriptions, limit 2: 3505
+		{2, 8, 0, "subs+2", []c37Label{sub(1, 3, false, "ok"), {Kind: "srvsub", Name: 10}}},               // exactly the limit at connect, then full
+		{3, 8, 0, "subs", []c37Label{sub(1, 3, false, "async"), {Kind: "unsubrace", Tok: 0, OK: true}, sub(1, 3, false, "ok")}}, // unsubscribe waits for the held subscribe
+		{3, 8, 0, "subs", []c37Label{sub(1, 3, false, "async"), {Kind: "unsubrace", Tok: 0, OK: false}}},
 		{0, 0, 200, "queue-delay", []c37Label{{Kind: "enqueue", Size: 90}, {Kind: "enqueue", Size: 90}, {Kind: "enqueue", Size: 90}}},
 		{0, 0, 200, "queue-timer", []c37Label{{Kind: "enqueue", Size: 90}, {Kind: "enqueue", Size: 90}, {Kind: "enqueue", Size: 90}}},
 		{0, 0, 300, "queue-many", []c37Label{{Kind: "srvsub", Name: 40}, {Kind: "enqueue", Many: []int{2, 2}}, {Kind: "enqueue", Many: []int{60, 60}}, {Kind: "enqueue", Many: []int{60, 60}}}},
@@ -745,9 +813,12 @@ func TestVerifC37(t *testing.T) {
 			steps = 3 + r.Intn(6)
 		} else {
 			f = fx{2 + r.Intn(3), 6 + r.Intn(3), 0, "subs", nil}
+			if r.Intn(4) == 0 {
+				f.kind = fmt.Sprintf("subs+%d", r.Intn(f.limit+2)) // connect-time subscriptions, up to one more than the limit
+			}
 			steps = 6 + r.Intn(14)
 		}
-		labels, obs, snaps := c37Run(t, f.limit, f.maxlen, f.maxq, f.kind, r, f.labels, steps)
+		labels, obs, snaps, conn, snap0 := c37Run(t, f.limit, f.maxlen, f.maxq, f.kind, r, f.labels, steps)
 		ls := make([]string, len(labels))
 		os := make([]string, len(labels))
 		ss := make([]string, len(labels))
@@ -764,7 +835,26 @@ func TestVerifC37(t *testing.T) {
 			os[k] = vList(xs)
 			ss[k] = vApp("mkSnap", vBool(snaps[k].Closed), vN(uint64(snaps[k].Held)), vN(uint64(snaps[k].Q)))
 		}
-		term := vApp("mkCase", vApp("mkCfg", vN(uint64(f.limit)), vN(uint64(f.maxlen)), vN(uint64(f.maxq))), vList(ls), vList(os), vList(ss))
+		nsubs := 0
+		if j := strings.Index(f.kind, "+"); j >= 0 {
+			fmt.Sscanf(f.kind[j+1:], "%d", &nsubs)
+		}
+		subNames := make([]string, nsubs)
+		for k := range subNames {
+			subNames[k] = vN(uint64(50 + k))
+		}
+		var cs []string
+		for _, e := range conn {
+			if e.Kind == "reply" {
+				continue // the connect reply itself
+			}
+			cs = append(cs, e.coq())
+			if e.Kind == "close" {
+				rejected++
+			}
+		}
+		term := vApp("mkCase", vApp("mkCfg", vN(uint64(f.limit)), vN(uint64(f.maxlen)), vN(uint64(f.maxq))), vList(subNames), vList(ls),
+			vList(cs), vApp("mkSnap", vBool(snap0.Closed), vN(uint64(snap0.Held)), vN(uint64(snap0.Q))), vList(os), vList(ss))
 		class := f.kind
 		if rejected > 0 {
 			class += "/limit-hit"
